@@ -225,4 +225,14 @@ theorem match_of_rowFill {r : Row} (hr : rowFill r = true) {f : Format} (hf : fo
       have : ¬ (g.ft == FT_VOP3a && isVOP3bOpcode r.opcode) = true := by simpa using hcnd
       rw [if_neg this, beq_iff_eq.mp hm]
 
+theorem opcode_fits_of_rowFill {r : Row} (hr : rowFill r = true) {f : Format} (hf : formatOf r.ft = some f) :
+    r.opcode < 2 ^ (f.opHi - f.opLo + 1) := by
+  unfold rowFill at hr
+  rw [hf] at hr
+  simp only [Bool.and_eq_true, decide_eq_true_eq, beq_iff_eq] at hr
+  obtain ⟨⟨⟨⟨_, _⟩, hec⟩, _⟩, _⟩ := hr
+  rw [← hec]
+  unfold extractBits
+  exact Nat.mod_lt _ (Nat.pow_pos (by decide))
+
 end C04
